@@ -261,6 +261,12 @@ func checkC12(r *Run) {
 	}
 	r.Check(nGo == 1, "close-once", "owner loop has a single start site", owner.Pos(), fmt.Sprintf("%d go statements start the owner loop", nGo))
 
+	// a failed read is retried only for a transient network error; everything else ends the reader (which shuts the
+	// transport down and wakes every caller)
+	c11RetryOnlyTransient(r, p, "io-retry", []*ssa.Function{reader}, "the reader treats a non-transient read error as temporary: it spins on a dead connection and never starts the shutdown, so pending and later calls hang")
+
+	ioDeadlineArmed(r, "io-deadline")
+
 	// (5) write failure path
 	var ownerWrites []*ssa.Call
 	for _, f := range p.withHelpers(owner, 1) {
@@ -459,4 +465,77 @@ func isOwnerLoop(fn *ssa.Function) bool {
 		}
 	})
 	return ok
+}
+
+// ioDeadlineArmed: every read/write of the connection is preceded, on every path, by (re-)arming the connection's
+// deadline — the deadline belongs to the shared connection, so a call that does not re-arm it inherits whatever an
+// earlier call left (possibly already expired), or none at all (a stalled peer then blocks the loop for ever).
+// This is the structural half of "within bounded time".
+func ioDeadlineArmed(r *Run, rule string) {
+	p := r.P
+	arms := func(fn *ssa.Function, kind string) []ssa.Instruction { // instructions of fn after which the deadline is armed
+		var out []ssa.Instruction
+		eachInstr(fn, func(in ssa.Instruction) {
+			c, ok := in.(*ssa.Call)
+			if !ok {
+				return
+			}
+			if c.Call.IsInvoke() && c.Call.Method.Name() == "Set"+kind+"Deadline" {
+				out = append(out, in)
+				return
+			}
+			// a helper that arms it on every path
+			if g := staticCallee(&c.Call); g != nil && g.Blocks != nil && p.InModule(g) && g != fn {
+				var inner []ssa.Instruction
+				eachInstr(g, func(in2 ssa.Instruction) {
+					if c2, ok := in2.(*ssa.Call); ok && c2.Call.IsInvoke() && c2.Call.Method.Name() == "Set"+kind+"Deadline" {
+						inner = append(inner, in2)
+					}
+				})
+				all := len(inner) > 0
+				for _, ret := range returnsOf(g) {
+					dom := false
+					for _, a := range inner {
+						if instrDominates(a, ret) {
+							dom = true
+						}
+					}
+					if !dom {
+						all = false
+					}
+				}
+				if all {
+					out = append(out, in)
+				}
+			}
+		})
+		return out
+	}
+	n := 0
+	for _, spec := range []struct {
+		fn, kind string
+		io       []string
+	}{
+		{"p9p:(*channel).ReadFcall", "Read", []string{"p9p.readmsg"}},
+		{"p9p:(*channel).WriteFcall", "Write", []string{"p9p.sendmsg", "(*bufio.Writer).Flush"}},
+	} {
+		fn := p.Fn(spec.fn)
+		if fn == nil {
+			r.Undecided(rule, spec.fn, token.NoPos, "anchor not found")
+			continue
+		}
+		as := arms(fn, spec.kind)
+		for _, io := range findCalls(fn, spec.io...) {
+			n++
+			ok := false
+			for _, a := range as {
+				if instrDominates(a, io) {
+					ok = true
+				}
+			}
+			r.Check(ok, rule, fmt.Sprintf("%s: Set%sDeadline precedes %s on every path", fnName(fn), spec.kind, calleeName(&io.Call)), io.Pos(),
+				"the connection's "+strings.ToLower(spec.kind)+" deadline is not re-armed on some path before the I/O: the call inherits an earlier call's (possibly expired) deadline or none — other calls fail spuriously, or a stalled peer blocks the loop for ever")
+		}
+	}
+	r.Floor(rule, n, 3, "I/O steps in ReadFcall/WriteFcall")
 }
